@@ -135,5 +135,5 @@ def from_tail_case(sc, T, thr16, thrn, r):
          "comment": b"c" * scale16(T["c"], thr16), "trailing": rand_bytes(r, scale16(T["g"], thr16))}
     if T["z"]:
         d["z64end"] = True
-        d["z64_sentinels"] = "all" if T["sent"] else "needed"
+        d["z64_sentinels"] = {(True, True): "all+disks", (True, False): "all", (False, True): "disks", (False, False): "needed"}[(T["sent"], T.get("dsent", False))]
     return scenario(sc, d)[0]
